@@ -36,3 +36,23 @@ Definition acquire (s : site) (stale fresh : obj) : obj :=
 Definition gwrite := (string * string * string * string)%type.
 Definition guarded (w : gwrite) : bool :=
   let '(_, _, _, g) := w in String.eqb g "once" || String.eqb g "mutex".
+
+(** Histories of acquisitions against a pool whose hand-out policy is arbitrary (sync.Pool may return any
+    recycled object, or a new one): [pick] chooses the stale object and the remaining pool; the acquired
+    object is put back after use.  What a call can observe of the object is the contents of the fields of
+    its type. *)
+Definition pool := list obj.
+Definition policy := pool -> obj * pool.
+Definition observe (types : list (string * list string)) (s : site) (o : obj) : list Z :=
+  match fields_of types (site_type s) with None => [] | Some fs => map o fs end.
+Definition pstep (types : list (string * list string)) (pick : policy) (p : pool) (a : site * obj)
+  : pool * list Z :=
+  let stale := fst (pick p) in
+  let o := acquire (fst a) stale (snd a) in
+  ((snd (pick p) ++ [o])%list, observe types (fst a) o).
+Fixpoint prun (types : list (string * list string)) (pick : policy) (p : pool) (h : list (site * obj))
+  : list (list Z) :=
+  match h with
+  | [] => []
+  | a :: h' => snd (pstep types pick p a) :: prun types pick (fst (pstep types pick p a)) h'
+  end.
